@@ -244,6 +244,11 @@ def part_model(rep, rng, tier):
     cases = [(k, ss, False) for k, ss in cases] + [(k + "+link", ss, True) for k, ss in cases]
     jobs = [(([("t.mac", prog_text(ss, lk))],), {"watchdog": 8}) for _, ss, lk in cases]
     outs = impl.pmap("assemble", jobs)
+    nre = 0
+    for k, o in enumerate(outs):      # a watchdog expiry on a loaded machine is not yet a hang
+        if o["outcome"] == "hang" and nre < 6:
+            nre += 1
+            outs[k] = impl.assemble(jobs[k][0][0], watchdog=CONFIRM_S)
     terms, keep = [], []
     for (kind, ss, lk), o in zip(cases, outs):
         rep.add_eval()
